@@ -621,6 +621,38 @@ def library_mc(chk, probes=("NV_CapErrorP", "NV_CapErrorV", "NV_AcceptedAfterInc
             raise ToolError("non-vacuity probe %s was not violated: the library model never reaches that situation" % probe)
 
 
+def batchsys_mc(chk):
+    """batch_verify over the full verifier algebra (MC_BatchSys): members are complete runs of System; BatchSysIff, BatchSysFirst,
+    PairOpposite; the shared-weight design and three non-vacuity probes must each be violated. All runs in parallel."""
+    import concurrent.futures as cf
+    mm = 2 if chk.quick else 3
+    def cfg_of(name, inv, shared):
+        p = chk.path("bsys_%s.cfg" % name)
+        open(p, "w").write("SPECIFICATION BSSpec\nCONSTANTS\n  P = 31723\n  MaxMembers = %d\n  SharedWeight = %s\nINVARIANT %s\nCHECK_DEADLOCK FALSE\n"
+                           % (mm if name == "main" else 2, shared, inv))
+        return p
+    runs = [("main", "BatchSysInv", "FALSE"), ("shared", "BatchSysIff", "TRUE"), ("NV_PairJoined", "NV_PairJoined", "FALSE"),
+            ("NV_EarlyJoined", "NV_EarlyJoined", "FALSE"), ("NV_AllOkBatch", "NV_AllOkBatch", "FALSE")]
+    def one(r):
+        name, inv, shared = r
+        return name, tlc("MC_BatchSys.tla", cfg_of(name, inv, shared), chk.path("bsys_" + name), workers=6 if name == "main" else 2,
+                         timeout=3000, seed=chk.seed)
+    with cf.ThreadPoolExecutor(max_workers=len(runs)) as ex:
+        res = dict(ex.map(one, runs))
+    r = res["main"]
+    if r["error"] or r["states"] == 0 or r["timeout"]:
+        log(r["out"][-3000:])
+        raise ToolError("MC_BatchSys: %s" % (r["error"] or "no states / timeout"))
+    chk.cov["states"] += r["distinct"]
+    chk.cov["transitions"] += r["states"]
+    chk.cov["tlc_runs"].append({"module": "MC_BatchSys.tla", "cfg": "BatchSysInv, MaxMembers=%d" % mm, "states_generated": r["states"], "distinct_states": r["distinct"]})
+    for name in ("shared", "NV_PairJoined", "NV_EarlyJoined", "NV_AllOkBatch"):
+        rr = res[name]
+        if not (rr["error"] and "Invariant" in rr["error"]):
+            raise ToolError("MC_BatchSys: %s was not violated (%s): the batch model is vacuous there" % (name, rr["error"]))
+    chk.cov["spec_mutant_shared_weight_rejected_by_system_model"] = True
+
+
 def toy_ideal(chk, curve, progs, cfgname, what, name, fl=None, retries=2):
     """Record programs on a toy curve and check an ideal-verdict invariant over the code's own verdicts. A run that violates the
     invariant may be Schwartz-Zippel / small-group luck: it is re-run under fresh randomness and counts only if it repeats every time."""
